@@ -7,6 +7,8 @@
 
 mod common;
 mod fam_filter;
+mod fam_retry;
+mod fam_match;
 
 use std::{collections::BTreeMap, collections::HashSet, fs, io::Write as _, path::Path};
 
@@ -16,6 +18,8 @@ fn families() -> Vec<(&'static str, fn(&mut Rng) -> Case)> {
     vec![
         ("tag.eval", fam_filter::gen_tag_eval as fn(&mut Rng) -> Case),
         ("filter.feature", fam_filter::gen_filter),
+        ("retry.resolve", fam_retry::gen_resolve),
+        ("match.find", fam_match::gen_find),
     ]
 }
 
